@@ -1,16 +1,61 @@
 /-
 C01 — MetricFrame disaggregation is exact: each cell is the metric on that subgroup.
-Property theorems only (helper lemmas: `Lemmas/Frame.lean`; model: `Model/Frame.lean`).
+Property theorems only (helper lemmas: `Lemmas/Frame.lean`, `Lemmas/C01Review.lean`; model: `Model/Frame.lean`).
 
 Everything is stated for an ARBITRARY metric `f : List α → β` (this is the quantifier
 "all metric callables ... with or without per-sample parameters": the per-sample parameters are part
 of the row payload `α`, so they are sliced with the rows by construction), an arbitrary list of
 rows, and arbitrary numbers `ncf`, `nsf` of control / sensitive columns.
+
+CLAUSE → THEOREM TABLE (review R3; "src_" = the same statement for the function text lifted from /repo)
+
+| clause of properties.jsonl C01                                   | theorem(s)                                              | strength |
+|------------------------------------------------------------------|---------------------------------------------------------|----------|
+| every entry of by_group = the metric on exactly the rows         | `byGroup_eq_table` (whole table, one equation),         | full     |
+|   carrying that combination of feature values                    | `src_byGroup_eq_table` (same for the lifted text),      |          |
+|                                                                  | `byGroup_cell`, `byGroup_nonempty`, `src_byGroup_cell`, |          |
+|                                                                  | `byGroup_partition`, `stratum_partition`                |          |
+| … with the per-sample parameters sliced the same way             | generic `f`: by construction (payload); dict of metrics | full     |
+|                                                                  | with DIFFERENT params per metric, one shared `all_data`:|          |
+|                                                                  | `multi_byGroup_exact`, `multi_overall_exact` (no getD   |          |
+|                                                                  | default: `sliceAt`), `multi_metric_own_params`,         |          |
+|                                                                  | `multi_column_eq_single`, `single_eq_model`             |          |
+| overall = the metric on all rows                                 | `overall_eq`, `src_overall_eq`, `multi_overall_exact`   | full     |
+| … on the rows of each control-feature combination                | `overall_eq_table`, `src_overall_eq_table`,             | full     |
+|                                                                  | `overall_control_cell/_index`,                          |          |
+|                                                                  | `src_overall_control_cell`, `byGroup_stratum_in_overall`|          |
+| by_group index is EXACTLY the set of observed values (1 feature) | `byGroup_index_single_eq` (1 feature, as a list),       | full     |
+|                                                                  | `byGroup_index_eq_product` (list equality, order incl.),|          |
+|   / the Cartesian product of the observed values (several)       | `byGroup_levels_spec` (each factor = sorted distinct    |          |
+|                                                                  | values of that column over ALL rows, not per stratum),  |          |
+|                                                                  | `byGroup_index` (iff), `_single`, `_nodup`, `_sorted`,  |          |
+|                                                                  | `byGroup_index_cross`, `byGroup_index_length`           |          |
+| a combination that contains no rows is reported as NaN           | `byGroup_empty` (present in the index WITH value NaN),  | full     |
+|   rather than dropped or filled                                  | `byGroup_empty_only_nan` (no other value under that     |          |
+|                                                                  | key), `byGroup_nonempty` (NaN placeholder ONLY there),  |          |
+|                                                                  | `driver_nan_distinct` (the drivers' NaN is no number)   |          |
+| quantifier: any length ≥ 1                                       | no theorem needs `rows ≠ []`; `byGroup_nil`/`overall_nil`| n = 0 is |
+|                                                                  | say what the model does at n = 0 (empty by_group,       | outside; |
+|                                                                  | overall = f []): real MetricFrame does the same for     | driver   |
+|                                                                  | Series/dict features and raises IndexError for a list   | rejects  |
+| quantifier: single-member groups, empty intersections, n = 1     | non-vacuity examples at the end of the file             |          |
+| feature normalisation (names of the index levels)                | `names_*` (correspondence-level clause: the property    | corr.    |
+|                                                                  | text only names `sensitive_levels`/`control_levels` as  | only     |
+|                                                                  | observables)                                            |          |
+| result types of the accessors                                    | `accessor_types` (not a clause of the property)         | extra    |
+
+TOTALISATION (review R3): `sliceDF` / `ownKwargs` read `column.getD j 0`.  On the rows the constructor builds
+(`mkRows`, row numbers `< n`) and with one value per row in every column (`ParamsFull`, `yt.length = n`) the default
+is never taken: `multi_byGroup_exact` is stated with `sliceAt` (positions outside the column are dropped, no
+default).  With a too short column the model PADS WITH 0 where real MetricFrame raises ValueError
+(`short_param_padded_artifact`); the driver op `fm.eval` does not check this (reported; Model files are read-only
+for the review) — the harness never sends such a line.
 -/
 import FairModel.Lemmas.Frame
 import FairModel.Lemmas.FrameSrc
 import FairModel.Lemmas.FrameMulti
 import FairModel.Lemmas.FeatureNames
+import FairModel.Lemmas.C01Review
 
 namespace C01
 open Frame
@@ -417,6 +462,15 @@ theorem multi_columns_ok (yt yp : List Rat) (ms : List (MetricSpec γ)) :
     getCol (constructAll (baseData yt yp) ms).1 "y_pred" = yp :=
   constructAll_rel yt yp ms
 
+/- REVIEW R3 NOTE on the three theorems below (`multi_metric_own_params`, `multi_column_eq_single`, `single_eq_model`):
+   they carry no hypothesis on the LENGTHS of y_true / y_pred / the sample-parameter arrays and no hypothesis that the
+   row payloads are row numbers `< n`; slices are written `idx.map (fun j => v.getD j 0)`.  For a column shorter than
+   the data (real MetricFrame: ValueError) or a payload `>= n` (never built by `mkRows`) both sides of the equations pad
+   with 0, so the statements hold there for the wrong reason.  What they do NOT say — that on the inputs MetricFrame
+   accepts no default is ever read, and what each cell then is — is `multi_byGroup_exact` / `multi_overall_exact`
+   (section Review, stated with the default-free `sliceAt` under `ParamsFull` and the length hypotheses);
+   `short_param_padded_artifact` exhibits the padding. -/
+
 /-- Every metric of a dict is called, on every slice, with y_true / y_pred of the slice and EXACTLY
     ITS OWN non-None sample parameters, sliced the same way — whatever the other metrics, their
     parameters and all the names are. -/
@@ -745,6 +799,271 @@ theorem names_arrays_accepted (k l : Nat) :
 
 end Names
 
+/-! ### Review R3: the clauses at full strength
+
+`byGroup_cell` / `byGroup_index` speak about ONE entry / membership.  The theorems of this section state the
+whole table as a list equation (index incl. order, every value), say that each factor of the product is taken
+over ALL rows, give both halves of the empty-combination clause, cover `n = 0`, and state the property for a
+dict of metrics with per-metric sample parameters end to end without any `getD` default. -/
+
+section Review
+open FramePrims FrameMulti
+
+/-- FIRST TWO SENTENCES OF THE PROPERTY AS ONE EQUATION.  `by_group` is, entry by entry and in this order, the
+    Cartesian product of the sorted distinct values of each grouping column (control columns first; each
+    taken over ALL rows) paired with the metric on exactly the rows carrying that tuple — NaN when there is no
+    such row.  Nothing else is in the table, nothing is missing; also for a single grouping column. -/
+theorem byGroup_eq_table (nanv : β) (ncf nsf : Nat) (hn : 0 < ncf + nsf) (f : List α → β)
+    (rows : List (Row α)) (hwf : WF ncf nsf rows) :
+    byGroup nanv ncf nsf f rows =
+      (product (levels Row.key (ncf + nsf) rows)).map (fun k =>
+        (k, if rows.filter (fun r => r.cf ++ r.sf == k) = [] then nanv
+            else f ((rows.filter (fun r => r.cf ++ r.sf == k)).map (·.dat)))) :=
+  applyFunctions_eq_table nanv Row.key (ncf + nsf) hn f rows (keyLen_key hwf)
+
+/-- the index as a LIST (order and multiplicity included): exactly the product of the per-column levels; for one
+    feature this is the list of observed values (as 1-tuples) -/
+theorem byGroup_index_eq_product (nanv : β) (ncf nsf : Nat) (hn : 0 < ncf + nsf) (f : List α → β)
+    (rows : List (Row α)) (hwf : WF ncf nsf rows) :
+    keys (byGroup nanv ncf nsf f rows) = product (levels Row.key (ncf + nsf) rows) := by
+  rw [byGroup_eq_table nanv ncf nsf hn f rows hwf]
+  simp [keys, List.map_map, Function.comp_def]
+
+/-- each factor of that product: the strictly increasing, duplicate-free list of the values column `j` takes on
+    ANY row of the data (not per control stratum) -/
+theorem byGroup_levels_spec (ncf nsf : Nat) (rows : List (Row α)) (j : Nat) (hj : j < ncf + nsf) :
+    ((levels Row.key (ncf + nsf) rows).getD j []).Pairwise (· < ·) ∧
+    ((levels Row.key (ncf + nsf) rows).getD j []).Nodup ∧
+    ∀ a, a ∈ (levels Row.key (ncf + nsf) rows).getD j [] ↔ ∃ r ∈ rows, (r.cf ++ r.sf).getD j "" = a := by
+  refine ⟨?_, ?_, fun a => mem_levels Row.key _ rows j hj a⟩
+  · rw [levels, getD_map_range _ _ j hj]; exact pairwise_uniq level_trans level_tri _
+  · rw [levels, getD_map_range _ _ j hj]; exact nodup_uniq _
+
+/-- the number of index entries is the product of the numbers of observed values -/
+theorem byGroup_index_length (nanv : β) (ncf nsf : Nat) (hn : 0 < ncf + nsf) (f : List α → β)
+    (rows : List (Row α)) (hwf : WF ncf nsf rows) :
+    (keys (byGroup nanv ncf nsf f rows)).length =
+      ((levels Row.key (ncf + nsf) rows).map List.length).prod := by
+  rw [byGroup_index_eq_product nanv ncf nsf hn f rows hwf, product_length]
+
+/-- the product is NOT taken per stratum: the control values of any row combined with the sensitive values of
+    any OTHER row are an index entry (NaN if no row carries that combination: `byGroup_empty`) -/
+theorem byGroup_index_cross (nanv : β) (ncf nsf : Nat) (hn : 0 < ncf + nsf) (f : List α → β)
+    (rows : List (Row α)) (hwf : WF ncf nsf rows) (r1 r2 : Row α) (h1 : r1 ∈ rows) (h2 : r2 ∈ rows) :
+    r1.cf ++ r2.sf ∈ keys (byGroup nanv ncf nsf f rows) := by
+  rw [byGroup_index nanv ncf nsf hn f rows hwf]
+  have c1 := (hwf r1 h1).1
+  have s1 := (hwf r1 h1).2
+  have c2 := (hwf r2 h2).1
+  have s2 := (hwf r2 h2).2
+  refine ⟨by simp [c1, s2], fun j _ => ?_⟩
+  by_cases hjc : j < ncf
+  · refine ⟨r1, h1, ?_⟩
+    simp [List.getD_eq_getElem?_getD, List.getElem?_append_left (c1 ▸ hjc)]
+  · refine ⟨r2, h2, ?_⟩
+    have e1 : r1.cf.length ≤ j := by omega
+    have e2 : r2.cf.length ≤ j := by omega
+    simp [List.getD_eq_getElem?_getD, List.getElem?_append_right e1, List.getElem?_append_right e2, c1, c2]
+
+/-- second half of "reported as NaN rather than dropped or FILLED": under the key of an empty combination there
+    is no value other than NaN (together with `byGroup_empty`: present, and `byGroup_index_nodup`: once) -/
+theorem byGroup_empty_only_nan (nanv : β) (ncf nsf : Nat) (hn : 0 < ncf + nsf) (f : List α → β)
+    (rows : List (Row α)) (k : Key) (hempty : ∀ r ∈ rows, r.cf ++ r.sf ≠ k) (v : β)
+    (h : (k, v) ∈ byGroup nanv ncf nsf f rows) : v = nanv := by
+  have hv := byGroup_cell nanv ncf nsf hn f rows k v h
+  have : rows.filter (fun r => r.cf ++ r.sf == k) = [] := by
+    rw [List.filter_eq_nil_iff]
+    intro r hr; simpa using hempty r hr
+  rwa [if_pos this] at hv
+
+/-- `overall` with control features, whole table: the product of the observed values of each control column,
+    each entry the metric on exactly the rows of that control combination (NaN if there is none) -/
+theorem overall_eq_table (nanv : β) (ncf nsf : Nat) (hn : 0 < ncf) (f : List α → β)
+    (rows : List (Row α)) (hwf : WF ncf nsf rows) :
+    overall nanv ncf f rows =
+      (product (levels Row.ckey ncf rows)).map (fun c =>
+        (c, if rows.filter (fun r => r.cf == c) = [] then nanv
+            else f ((rows.filter (fun r => r.cf == c)).map (·.dat)))) :=
+  applyFunctions_eq_table nanv Row.ckey ncf hn f rows (keyLen_ckey hwf)
+
+/-- one sensitive feature, no control feature, as a LIST: the index is the sorted list of the distinct observed
+    values (as 1-tuples) — "exactly the set of observed values" -/
+theorem byGroup_index_single_eq (nanv : β) (f : List α → β) (rows : List (Row α)) (hwf : WF 0 1 rows) :
+    keys (byGroup nanv 0 1 f rows) = (uniq (rows.map (fun r => (r.cf ++ r.sf).getD 0 ""))).map (fun a => [a]) := by
+  rw [byGroup_index_eq_product nanv 0 1 (by omega) f rows hwf]
+  have : levels Row.key (0 + 1) rows = [uniq (rows.map (fun r => (r.cf ++ r.sf).getD 0 ""))] := by
+    simp [levels, col, List.map_map, Function.comp_def, Row.key]
+  rw [this, product_single]
+
+/-- the whole-table equation for the function text lifted from /repo (`DisaggregatedResult.create(...).by_group`) -/
+theorem src_byGroup_eq_table (nanv : β) (ncf nsf : Nat) (hn : 0 < ncf + nsf) (f : List α → β)
+    (rows : List (Row α)) (hwf : WF ncf nsf rows) :
+    FrameSrc.create_by_group nanv rows f (sfNames nsf) (cfNames ncf) =
+      (product (levels Row.key (ncf + nsf) rows)).map (fun k =>
+        (k, if rows.filter (fun r => r.cf ++ r.sf == k) = [] then nanv
+            else f ((rows.filter (fun r => r.cf ++ r.sf == k)).map (·.dat)))) := by
+  rw [src_byGroup_eq_model nanv ncf nsf f rows hwf]
+  exact byGroup_eq_table nanv ncf nsf hn f rows hwf
+
+/-- … and for `create(...).overall` with control features -/
+theorem src_overall_eq_table (nanv : β) (ncf nsf : Nat) (hn : 0 < ncf) (f : List α → β)
+    (rows : List (Row α)) (hwf : WF ncf nsf rows) :
+    FrameSrc.create_overall nanv rows f (sfNames nsf) (cfNames ncf) =
+      (product (levels Row.ckey ncf rows)).map (fun c =>
+        (c, if rows.filter (fun r => r.cf == c) = [] then nanv
+            else f ((rows.filter (fun r => r.cf == c)).map (·.dat)))) := by
+  rw [src_overall_eq_model nanv ncf nsf f rows hwf]
+  exact overall_eq_table nanv ncf nsf hn f rows hwf
+
+/-- the NaN the drivers fill in (`Cell.nan`) differs from every number a metric can return, in particular from 0:
+    "reported as NaN rather than … filled" is not blurred by the choice of `nanv` -/
+theorem driver_nan_distinct (q : Rat) : Cell.nan ≠ Cell.ofRat q := by
+  intro h; cases h
+
+/-- n = 0 (outside the quantifier "any length >= 1"): the model's `by_group` is empty.  Real MetricFrame: the same
+    for Series / DataFrame / dict features, IndexError for a list (`features[0]`).  The drivers reject n = 0. -/
+theorem byGroup_nil (nanv : β) (ncf nsf : Nat) (hn : 0 < ncf + nsf) (f : List α → β) :
+    byGroup nanv ncf nsf f ([] : List (Row α)) = [] := by
+  have hwf : WF ncf nsf ([] : List (Row α)) := by intro r hr; cases hr
+  apply List.eq_nil_iff_forall_not_mem.mpr
+  rintro ⟨k, v⟩ hkv
+  have hk : k ∈ keys (byGroup nanv ncf nsf f ([] : List (Row α))) := List.mem_map.mpr ⟨_, hkv, rfl⟩
+  rw [byGroup_index nanv ncf nsf hn f [] hwf] at hk
+  obtain ⟨r, hr, _⟩ := hk.2 0 hn
+  cases hr
+
+/-- n = 0: `overall` without control features is the metric on the empty slice (real `count` gives 0,
+    `selection_rate` raises) — no default value is invented -/
+theorem overall_nil (nanv : β) (f : List α → β) :
+    overall nanv 0 f ([] : List (Row α)) = [([], f [])] := rfl
+
+/-! #### dict of metrics, per-metric sample parameters, one shared `all_data`: end to end, no default -/
+
+variable {γ : Type}
+
+/-- THE PROPERTY FOR A DICT OF METRICS.  `feats` are the (control, sensitive) values of the `n` rows, `yt`, `yp`
+    have `n` entries, every non-None sample parameter of metric `m` has `n` entries (`ParamsFull`; otherwise real
+    MetricFrame raises), the dict keys are distinct.  Then column `m.name` of `by_group` is exactly: for every tuple
+    of the product index, `m.func` called with y_true / y_pred at the row numbers of the rows carrying that tuple (in
+    the original order) and with EXACTLY ITS OWN non-None sample parameters at the same row numbers — NaN when no row
+    carries the tuple.  `sliceAt` has no default: nothing here is true because of a `getD _ 0`. -/
+theorem multi_byGroup_exact (nanv : γ) (ncf nsf : Nat) (hn : 0 < ncf + nsf) (yt yp : List Rat)
+    (feats : List (List Level × List Level)) (hf : ∀ p ∈ feats, p.1.length = ncf ∧ p.2.length = nsf)
+    (hyt : yt.length = feats.length) (hyp : yp.length = feats.length)
+    (ms : List (MetricSpec γ)) (hnames : (ms.map (·.name)).Nodup) (m : MetricSpec γ) (hm : m ∈ ms)
+    (hpar : ParamsFull feats.length m) :
+    FrameMulti.column m.name (byGroupFrame nanv ncf nsf (baseData yt yp) ms (mkRows feats)) =
+      (product (levels Row.key (ncf + nsf) (mkRows feats))).map (fun k =>
+        (k, some (if rowIdx feats k = [] then nanv
+                  else m.func [sliceAt yt (rowIdx feats k), sliceAt yp (rowIdx feats k)]
+                         (ownKwargsAt m (rowIdx feats k))))) := by
+  have hwf := mkRows_wf ncf nsf feats hf
+  rw [multi_column_eq_single nanv ncf nsf yt yp ms _ hwf hnames m hm,
+    single_eq_model nanv ncf nsf yt yp m _ hwf, byGroup_eq_table nanv ncf nsf hn _ _ hwf, List.map_map]
+  apply List.map_congr_left
+  intro k _
+  simp only [Function.comp]
+  congr 2
+  have hs : (List.filter (fun r : Row Nat => r.cf ++ r.sf == k) (mkRows feats)).map (·.dat) = rowIdx feats k :=
+    slice_rowsOf_mkRows feats k
+  have hnil : (List.filter (fun r : Row Nat => r.cf ++ r.sf == k) (mkRows feats) = []) ↔ rowIdx feats k = [] :=
+    (rowIdx_eq_nil_iff feats k).symm
+  by_cases he : rowIdx feats k = []
+  · rw [if_pos he, if_pos (hnil.mpr he)]
+  · rw [if_neg he, if_neg (fun h => he (hnil.mp h)), hs,
+      map_getD_eq_sliceAt yt _ (fun j hj => hyt ▸ rowIdx_lt feats k j hj),
+      map_getD_eq_sliceAt yp _ (fun j hj => hyp ▸ rowIdx_lt feats k j hj),
+      ownKwargs_eq_at feats.length m hpar _ (rowIdx_lt feats k)]
+
+/-- the same for `overall`: without control features the metric on ALL rows `0 … n-1`, with control features on the
+    rows of each control combination -/
+theorem multi_overall_exact (nanv : γ) (ncf nsf : Nat) (yt yp : List Rat)
+    (feats : List (List Level × List Level)) (hf : ∀ p ∈ feats, p.1.length = ncf ∧ p.2.length = nsf)
+    (hyt : yt.length = feats.length) (hyp : yp.length = feats.length)
+    (ms : List (MetricSpec γ)) (hnames : (ms.map (·.name)).Nodup) (m : MetricSpec γ) (hm : m ∈ ms)
+    (hpar : ParamsFull feats.length m) :
+    FrameMulti.column m.name (overallFrame nanv ncf nsf (baseData yt yp) ms (mkRows feats)) =
+      if ncf = 0 then
+        [([], some (m.func [sliceAt yt (List.range feats.length), sliceAt yp (List.range feats.length)]
+                      (ownKwargsAt m (List.range feats.length))))]
+      else
+        (product (levels Row.ckey ncf (mkRows feats))).map (fun c =>
+          (c, some (if rowIdxC feats c = [] then nanv
+                    else m.func [sliceAt yt (rowIdxC feats c), sliceAt yp (rowIdxC feats c)]
+                           (ownKwargsAt m (rowIdxC feats c))))) := by
+  have hwf := mkRows_wf ncf nsf feats hf
+  rw [multi_overall_column_eq_single nanv ncf nsf yt yp ms _ hwf hnames m hm]
+  unfold singleOverall
+  dsimp only
+  rw [FrameSrc.create_overall_eq_model _ _ _ _ _ hwf]
+  obtain ⟨hr1, g1, g2⟩ := construct_rel yt yp m
+  have hfn : metricFn (construct (baseData yt yp) m).1 (construct (baseData yt yp) m).2 =
+      fun idx => m.func [idx.map (fun j => yt.getD j 0), idx.map (fun j => yp.getD j 0)] (ownKwargs m idx) := by
+    funext idx; exact metricFn_of_rel _ yt yp m _ hr1 g1 g2 idx
+  rw [hfn]
+  by_cases h0 : ncf = 0
+  · subst h0
+    rw [if_pos rfl]
+    have hall : slice (mkRows feats) = List.range feats.length := by
+      simp [slice, mkRows, List.map_map, Function.comp_def]
+    have hlt : ∀ j ∈ List.range feats.length, j < feats.length := fun j hj => List.mem_range.mp hj
+    show [(([] : Key), _)].map _ = _
+    simp only [List.map_cons, List.map_nil, hall]
+    rw [map_getD_eq_sliceAt yt _ (fun j hj => hyt ▸ hlt j hj), map_getD_eq_sliceAt yp _ (fun j hj => hyp ▸ hlt j hj),
+      ownKwargs_eq_at feats.length m hpar _ hlt]
+  · rw [if_neg h0, overall_eq_table nanv ncf nsf (by omega) _ _ hwf, List.map_map]
+    apply List.map_congr_left
+    intro c _
+    simp only [Function.comp]
+    congr 2
+    have hs : (List.filter (fun r : Row Nat => r.cf == c) (mkRows feats)).map (·.dat) = rowIdxC feats c :=
+      slice_rowsOf_ckey_mkRows feats c
+    have hnil : (List.filter (fun r : Row Nat => r.cf == c) (mkRows feats) = []) ↔ rowIdxC feats c = [] :=
+      (rowIdxC_eq_nil_iff feats c).symm
+    by_cases he : rowIdxC feats c = []
+    · rw [if_pos he, if_pos (hnil.mpr he)]
+    · rw [if_neg he, if_neg (fun h => he (hnil.mp h)), hs,
+        map_getD_eq_sliceAt yt _ (fun j hj => hyt ▸ rowIdxC_lt feats c j hj),
+        map_getD_eq_sliceAt yp _ (fun j hj => hyp ▸ rowIdxC_lt feats c j hj),
+        ownKwargs_eq_at feats.length m hpar _ (rowIdxC_lt feats c)]
+
+/-- TOTALISATION ARTEFACT, exhibited: a sample parameter with 2 values on 3 rows.  The model's `ownKwargs` (and the
+    driver op `fm.eval`, which does not check parameter lengths) PADS the missing value with 0; the default-free
+    `ownKwargsAt` drops it.  Real `MetricFrame(metrics=selection_rate, y_true=[0,1,1], y_pred=[1,0,1],
+    sensitive_features=['a','b','a'], sample_params={'sample_weight': [1., 2.]})` raises ValueError
+    ("Length of values (2) does not match length of index (3)").  `multi_byGroup_exact` excludes this input by
+    `ParamsFull`; `multi_metric_own_params` / `multi_column_eq_single` hold there only because both sides pad. -/
+theorem short_param_padded_artifact :
+    ownKwargs (⟨"m", some "m", sumKw, [("sample_weight", some [1, 2])]⟩ : MetricSpec Rat) [0, 1, 2] =
+        [("sample_weight", [1, 2, 0])] ∧
+    ownKwargsAt (⟨"m", some "m", sumKw, [("sample_weight", some [1, 2])]⟩ : MetricSpec Rat) [0, 1, 2] =
+        [("sample_weight", [1, 2])] ∧
+    ¬ ParamsFull 3 (⟨"m", some "m", sumKw, [("sample_weight", some [1, 2])]⟩ : MetricSpec Rat) := by
+  refine ⟨by decide +kernel, by decide +kernel, by decide +kernel⟩
+
+/-- the generated `bare_callable_name` is what the column prefix of a bare callable is built from:
+    `f"{None}_{param}"` -/
+theorem src_bare_prefix (t : AllData) (mp : List (String × String)) (pn : String) (v : List Rat) :
+    FrameSrc.construct_step FrameSrc.bare_callable_name (t, mp) (pn, some v) =
+      ((uniquifyCol t ("None_" ++ pn) "_", v) :: t, mp ++ [(pn, uniquifyCol t ("None_" ++ pn) "_")]) := by
+  rw [step_some]
+  have : pyFormat FrameSrc.bare_callable_name ++ "_" ++ pn = "None_" ++ pn := by
+    simp [FrameSrc.bare_callable_name, pyFormat]
+  rw [this]
+
+/-- the rows the driver ops hand to the model satisfy the `WF` hypothesis of the theorems above
+    (`frame.eval`: `MetricPool.mkRows`; `fm.eval`: `FrameMulti.mkRows` of the transposed columns) -/
+theorem driver_rows_wf :
+    (∀ (ncf : Nat) (ys ps p0 p1 : List Rat) (cols : List (List Level)) (rows : List (Row MetricPool.Dat)),
+      MetricPool.mkRows ncf ys ps p0 p1 cols = some rows →
+        WF ncf (cols.length - ncf) rows ∧ rows.length = ys.length) ∧
+    (∀ (n ncf : Nat) (cols : List (List Level)) (feats : List (List Level)),
+      MetricPool.rowFeatures n cols = some feats → ncf ≤ cols.length →
+        WF ncf (cols.length - ncf) (mkRows (feats.map (fun fs => (fs.take ncf, fs.drop ncf))))) :=
+  ⟨frame_rows_wf, fm_rows_wf⟩
+
+end Review
+
 /-! ### Non-vacuity: a 6-row frame with 2 x 2 sensitive levels and one empty intersection -/
 
 def exRows : List (Row Nat) :=
@@ -773,5 +1092,97 @@ example : FeatureNames.metricFrameNames ["m_w", "y_true", "y_pred"] (.series (so
 example : FeatureNames.metricFrameNames ["m_w", "y_true", "y_pred"] (.list true) (some (.series (some (.str "m_w")))) = .error .reservedName := by decide +kernel
 example : FeatureNames.metricFrameNames ["y_true", "y_pred"] (.list true) (some (.series none)) =
     .ok (["sensitive_feature_0"], some ["control_feature_0"]) := by decide +kernel
+
+/-! ### Non-vacuity, review R3: ALL hypotheses of each theorem at once, on inputs where NaN is distinguishable
+
+The examples above use `nanv = 0` with `List.sum`, which cannot tell "NaN" from "filled with 0" (exactly the seeded
+change C01b).  Below the value type is `Option Nat` with `nanv = none`; `exRowsZ` has a NON-EMPTY cell whose metric
+value is `some 0`, a single-member group, and an empty intersection. -/
+
+section NonVacuity
+open FramePrims FrameMulti
+
+def exF : List Nat → Option Nat := fun l => some l.sum
+
+/-- 2 x 2 sensitive levels: ("a","x") has two rows summing to 0, ("a","y") is a single-member group,
+    ("b","x") has one row, ("b","y") is an empty intersection -/
+def exRowsZ : List (Row Nat) :=
+  [⟨0, [], ["a", "x"]⟩, ⟨5, [], ["a", "y"]⟩, ⟨3, [], ["b", "x"]⟩, ⟨0, [], ["a", "x"]⟩]
+
+example : byGroup none 0 2 exF exRowsZ =
+    [(["a", "x"], some 0), (["a", "y"], some 5), (["b", "x"], some 3), (["b", "y"], none)] := by decide +kernel
+
+-- `byGroup_cell`: hypotheses (0 < ncf + nsf, membership) met by a non-empty cell, a single-member group and the empty one
+example : some 0 = (if exRowsZ.filter (fun r => r.cf ++ r.sf == ["a", "x"]) = [] then none
+    else exF ((exRowsZ.filter (fun r => r.cf ++ r.sf == ["a", "x"])).map (·.dat))) :=
+  byGroup_cell none 0 2 (by omega) exF exRowsZ ["a", "x"] (some 0) (by decide +kernel)
+example : (["a", "y"], some 5) ∈ byGroup none 0 2 exF exRowsZ ∧
+    (exRowsZ.filter (fun r => r.cf ++ r.sf == ["a", "y"])).length = 1 := by decide +kernel
+-- n = 1 (one row, one group, one feature): every theorem's hypotheses hold (`0 < ncf + nsf`, `WF`)
+example : WF 0 1 [(⟨7, [], ["a"]⟩ : Row Nat)] ∧
+    byGroup none 0 1 exF [(⟨7, [], ["a"]⟩ : Row Nat)] = [(["a"], some 7)] ∧
+    overall none 0 exF [(⟨7, [], ["a"]⟩ : Row Nat)] = [([], some 7)] := by decide +kernel
+-- `byGroup_eq_table` / `byGroup_index_eq_product` / `byGroup_index_length`: WF input with >= 2 features; 4 = 2 * 2 entries
+example : WF 0 2 exRowsZ ∧ 0 < 0 + 2 ∧ levels Row.key 2 exRowsZ = [["a", "b"], ["x", "y"]] ∧
+    (keys (byGroup none 0 2 exF exRowsZ)).length = 4 := by decide +kernel
+-- `byGroup_index` / `byGroup_index_single`: both directions are inhabited
+example : ["b", "y"] ∈ keys (byGroup none 0 2 exF exRowsZ) ∧ ["b", "z"] ∉ keys (byGroup none 0 2 exF exRowsZ) := by
+  decide +kernel
+-- `byGroup_empty` + `byGroup_empty_only_nan`: ALL hypotheses (WF, length, every coordinate observed, no row with the
+-- tuple) hold for a really empty intersection of 2 features; the conclusion is NaN and not `some 0`
+example : (["b", "y"], none) ∈ byGroup none 0 2 exF exRowsZ :=
+  byGroup_empty none 0 2 (by omega) exF exRowsZ (by decide) ["b", "y"] rfl (by decide) (by decide)
+example : ∀ v, (["b", "y"], v) ∈ byGroup none 0 2 exF exRowsZ → v = none :=
+  fun v h => byGroup_empty_only_nan none 0 2 (by omega) exF exRowsZ ["b", "y"] (by decide) v h
+example : (["b", "y"], some 0) ∉ byGroup none 0 2 exF exRowsZ := by decide +kernel
+-- `byGroup_nonempty`: a cell with rows whose value is `some 0` is NOT the NaN placeholder
+example : some 0 = exF ((exRowsZ.filter (fun r => r.cf ++ r.sf == ["a", "x"])).map (·.dat)) :=
+  byGroup_nonempty none 0 2 (by omega) exF exRowsZ ["a", "x"] (some 0) (by decide +kernel)
+    ⟨0, [], ["a", "x"]⟩ (by simp [exRowsZ]) rfl
+-- `byGroup_partition` / `stratum_partition`: hypotheses WF + 0 < ncf + nsf (above); the flattened cells are the 4 rows
+example : ((keys (byGroup none 0 2 exF exRowsZ)).flatMap (fun k => rowsOf Row.key k exRowsZ)).length = 4 := by
+  decide +kernel
+
+/-- 1 control x 1 sensitive feature; the sensitive value "b" occurs only in stratum "k", the product is over ALL rows -/
+def exRowsCZ : List (Row Nat) :=
+  [⟨1, ["m"], ["a"]⟩, ⟨2, ["k"], ["b"]⟩, ⟨4, ["k"], ["a"]⟩, ⟨8, ["k"], ["b"]⟩]
+
+-- `overall_control_cell/_index`, `overall_eq_table`, `byGroup_stratum_in_overall`, `byGroup_index_cross`:
+-- hypotheses 0 < ncf, WF 1 1; ("m","b") is in the index although "b" never occurs in stratum "m"
+example : WF 1 1 exRowsCZ ∧
+    byGroup none 1 1 exF exRowsCZ = [(["k", "a"], some 4), (["k", "b"], some 10), (["m", "a"], some 1), (["m", "b"], none)] ∧
+    overall none 1 exF exRowsCZ = [(["k"], some 14), (["m"], some 1)] := by decide +kernel
+example : ["m", "b"] ∈ keys (byGroup none 1 1 exF exRowsCZ) :=
+  byGroup_index_cross none 1 1 (by omega) exF exRowsCZ (by decide) ⟨1, ["m"], ["a"]⟩ ⟨2, ["k"], ["b"]⟩
+    (by simp [exRowsCZ]) (by simp [exRowsCZ])
+-- two control features: an unobserved control COMBINATION is NaN in `overall` as well
+example : overall none 2 exF [(⟨1, ["k", "p"], ["a"]⟩ : Row Nat), ⟨2, ["m", "q"], ["b"]⟩] =
+    [(["k", "p"], some 1), (["k", "q"], none), (["m", "p"], none), (["m", "q"], some 2)] := by decide +kernel
+
+/-- a dict of two metrics with DIFFERENT sample parameters ("w" for the first, "v" and a None-valued "u" for the
+    second) on 3 rows with 2 sensitive features and an empty intersection -/
+def exSpecs : List (MetricSpec (Option Rat)) :=
+  [⟨"m0", some "m0", fun _ kw => some (sumKw [] kw), [("w", some [1, 2, 4])]⟩,
+   ⟨"m1", some "m1", fun pos kw => some (sumKw [] kw + ((pos.getD 0 []).sum)), [("u", none), ("v", some [10, 20, 40])]⟩]
+
+def exFeats : List (List Level × List Level) := [([], ["a", "x"]), ([], ["b", "y"]), ([], ["a", "x"])]
+
+-- `multi_byGroup_exact` / `multi_overall_exact` / `multi_column_eq_single` / `multi_metric_own_params`: ALL hypotheses
+example : (∀ p ∈ exFeats, p.1.length = 0 ∧ p.2.length = 2) ∧ ([0, 1, 1] : List Rat).length = exFeats.length ∧
+    ((exSpecs.map (·.name)).Nodup) ∧ (∀ m ∈ exSpecs, ParamsFull exFeats.length m) ∧
+    WF 0 2 (mkRows exFeats) := by decide +kernel
+-- and the interesting branch: each metric sees only its own parameter, sliced by the rows [0, 2] / [1]; NaN elsewhere
+example : FrameMulti.column "m0" (byGroupFrame none 0 2 (baseData [0, 1, 1] [0, 1, 0]) exSpecs (mkRows exFeats)) =
+    [(["a", "x"], some (some 5)), (["a", "y"], some none), (["b", "x"], some none), (["b", "y"], some (some 2))] := by
+  decide +kernel
+example : FrameMulti.column "m1" (byGroupFrame none 0 2 (baseData [0, 1, 1] [0, 1, 0]) exSpecs (mkRows exFeats)) =
+    [(["a", "x"], some (some 51)), (["a", "y"], some none), (["b", "x"], some none), (["b", "y"], some (some 21))] := by
+  decide +kernel
+example : rowIdx exFeats ["a", "x"] = [0, 2] ∧ rowIdx exFeats ["a", "y"] = [] ∧
+    sliceAt [1, 2, 4] (rowIdx exFeats ["a", "x"]) = [1, 4] := by decide +kernel
+example : FrameMulti.column "m1" (overallFrame none 0 2 (baseData [0, 1, 1] [0, 1, 0]) exSpecs (mkRows exFeats)) =
+    [([], some (some 72))] := by decide +kernel
+
+end NonVacuity
 
 end C01
